@@ -235,6 +235,10 @@ srp:
     max_methods: 3
 magic-numbers:
   allowed_numbers: [0, 1, 2, 37]
+  typescript:
+    allowed_numbers: [0, 1, 2, 100]
+  rust:
+    allowed_numbers: [0, 1]
 """
 ALT_CONFIG = """dry:
   enabled: true
